@@ -7,7 +7,7 @@ import vlib
 from vlib import coq_literal_bytes as cb, coq_Z, coq_N, coq_bool, coq_list, coq_option
 
 HEADER = ('From Teleport Require Import Base.Bytes Base.Outcome Model.Tendermint Model.TendermintCheck.\n'
-          'Local Open Scope Z_scope.\n')
+          'Local Open Scope Z_scope.\nLocal Open Scope string_scope.\n')
 
 KINDS = {
     1: 'model and code disagree on the result class of Header.ValidateBasic',
@@ -38,8 +38,18 @@ KINDS = {
 SHARD = 30
 
 
+_BYTES = None   # the Terms object collecting shared definitions while a shard is rendered
+
+
 def hb(h):
-    return cb(bytes.fromhex(h))
+    """byte string literal: hex string decoded inside Coq (Model/TendermintCheck.v: hx); every distinct longer string is
+    defined once per file (Coq's cost is proportional to the literal text)"""
+    if not h:
+        return '[]'
+    t = '(hx "%s")' % h.lower()
+    if _BYTES is not None and len(h) >= 16:
+        return _BYTES.share_bytes(t)
+    return t
 
 
 def height(h):
@@ -47,14 +57,13 @@ def height(h):
 
 
 def client(c):
-    return ('{| cs_chain_id := %s; cs_tl_num := %s; cs_tl_den := %s; cs_trusting := %s; cs_unbonding := %s; cs_drift := %s; '
-            'cs_latest := %s; cs_delay := %s; cs_rest := %s |}' % (
+    return ('(Build_client_state %s %s %s %s %s %s %s %s %s)' % (
                 hb(c['chain_id']), coq_N(c['tl_num']), coq_N(c['tl_den']), coq_Z(c['trusting']), coq_Z(c['unbonding']),
                 coq_Z(c['drift']), height(c['latest']), coq_N(c['delay']), hb(c['rest'])))
 
 
 def cons(c):
-    return '{| c_time := %s; c_root := %s; c_nvh := %s |}' % (coq_Z(c['time']), hb(c['root']), hb(c['nvh']))
+    return '(Build_cons_state %s %s %s)' % (coq_Z(c['time']), hb(c['root']), hb(c['nvh']))
 
 
 class Terms:
@@ -72,6 +81,14 @@ class Terms:
             n = 'd%d' % len(self.names)
             self.names[term] = n
             self.defs.append('Definition %s : %s := %s.' % (n, ty, term))
+        return n
+
+    def share_bytes(self, term):
+        n = self.names.get(term)
+        if n is None:
+            n = 'b%d' % len(self.names)
+            self.names[term] = n
+            self.defs.append('Definition %s : bytes := %s.' % (n, term))
         return n
 
     def entry(self, e):
@@ -92,33 +109,31 @@ def pk(p):
 
 
 def pval(v):
-    return '{| v_addr := %s; v_pk := %s; v_power := %s |}' % (hb(v['addr']), pk(v['pk']), coq_Z(v['power']))
+    return '(Build_pvalidator %s %s %s)' % (hb(v['addr']), pk(v['pk']), coq_Z(v['power']))
 
 
 def pvalset(vs):
     if vs is None:
         return 'None'
-    return '(Some {| vs_vals := %s; vs_proposer := %s |})' % (
+    return '(Some (Build_pvalset %s %s))' % (
         coq_list([pval(v) for v in vs['vals']]), 'None' if vs['proposer'] is None else '(Some %s)' % pval(vs['proposer']))
 
 
 def block_id(b):
-    return '{| b_hash := %s; b_parts := {| ps_total := %s; ps_hash := %s |} |}' % (hb(b['hash']), coq_N(b['total']), hb(b['phash']))
+    return '(Build_block_id %s (Build_part_set_header %s %s))' % (hb(b['hash']), coq_N(b['total']), hb(b['phash']))
 
 
 def pheader(h):
-    return ('{| hd_version_block := %s; hd_version_app := %s; hd_chain_id := %s; hd_height := %s; hd_time := %s; '
-            'hd_last_block_id := %s; hd_last_commit_hash := %s; hd_data_hash := %s; hd_vals_hash := %s; hd_next_vals_hash := %s; '
-            'hd_cons_hash := %s; hd_app_hash := %s; hd_last_results_hash := %s; hd_evidence_hash := %s; hd_proposer := %s |}' % (
+    return ('(Build_pheader %s %s %s %s %s %s %s %s %s %s %s %s %s %s %s)' % (
                 coq_N(h['vb']), coq_N(h['va']), hb(h['chain']), coq_Z(h['height']), coq_Z(h['time']), block_id(h['last']),
                 hb(h['last_commit']), hb(h['data']), hb(h['vals']), hb(h['next_vals']), hb(h['cons']), hb(h['app']),
                 hb(h['last_res']), hb(h['evid']), hb(h['proposer'])))
 
 
 def pcommit(c):
-    sigs = ['{| sg_flag := %s; sg_addr := %s; sg_time := %s; sg_sig := %s |}' % (
+    sigs = ['(Build_commit_sig %s %s %s %s)' % (
         coq_N(s['flag']), hb(s['addr']), coq_Z(s['time']), hb(s['sig'])) for s in c['sigs']]
-    return '{| cm_height := %s; cm_round := %s; cm_block_id := %s; cm_sigs := %s |}' % (
+    return '(Build_pcommit %s %s %s %s)' % (
         coq_Z(c['height']), coq_Z(c['round']), block_id(c['block']), coq_list(sigs))
 
 
@@ -127,10 +142,10 @@ def header(h):
         sh = 'None'
     else:
         s = h['signed']
-        sh = '(Some {| sh_header := %s; sh_commit := %s |})' % (
+        sh = '(Some (Build_signed_header %s %s))' % (
             'None' if s['header'] is None else '(Some %s)' % pheader(s['header']),
             'None' if s['commit'] is None else '(Some %s)' % pcommit(s['commit']))
-    return '{| h_signed := %s; h_valset := %s; h_trusted_height := %s; h_trusted_vals := %s |}' % (
+    return '(Build_header %s %s %s %s)' % (
         sh, pvalset(h['valset']), height(h['th']), pvalset(h['tvals']))
 
 
@@ -149,7 +164,7 @@ def oracle(o, h):
             vals.append('(%s, %s)' % (inp, hb(hh)))
     chain = h['signed']['header']['chain'] if h['signed'] and h['signed']['header'] else ''
     sigs = ['((%d%%nat, %s), %d%%nat, %s)' % (s['t'], hb(s['pk']), s['idx'], coq_bool(s['ok'])) for s in o['sigs']]
-    return '{| ot_header_hash := %s; ot_vals := %s; ot_chain := %s; ot_sigs := %s |}' % (
+    return '(Build_oracle_tab %s %s %s %s)' % (
         hb(o['header_hash']), coq_list(vals), hb(chain), coq_list(sigs))
 
 
@@ -168,7 +183,7 @@ def step_term(T, st, o):
 
 def hist_term(T, r):
     steps = [step_term(T, st, o) for st, o in zip(r['spec']['steps'], r['obs'])]
-    return '{| hs_init := %s; hs_steps := %s |}' % (T.store(r['init_store']), coq_list(steps))
+    return '(Build_hist %s %s)' % (T.store(r['init_store']), coq_list(steps))
 
 
 def evaluate(workdir, results, tag='cases'):
@@ -177,11 +192,17 @@ def evaluate(workdir, results, tag='cases'):
     repair); the comparison is made with both and the variant the tree implements (fewer disagreements) is reported."""
     shards = [results[i:i + SHARD] for i in range(0, len(results), SHARD)]
 
-    def one(ix):
-        i, sh = ix
+    global _BYTES
+    texts = []
+    for sh in shards:   # rendered sequentially (the sharing table is per file), evaluated in parallel
         T = Terms()
+        _BYTES = T
         hs = [hist_term(T, r) for r in sh]
-        defs = '\n'.join(T.defs) + '\nDefinition cases : list hist := %s.\n' % coq_list(hs)
+        _BYTES = None
+        texts.append('\n'.join(T.defs) + '\nDefinition cases : list hist := %s.\n' % coq_list(hs))
+
+    def one(ix):
+        i, defs = ix
         res = vlib.coq_eval_lists(workdir, '%s_%d.v' % (tag, i), HEADER, defs,
                                   [('M0', 'mismatches false cases'), ('M1', 'mismatches true cases'),
                                    ('F', 'monitor_failures cases')])
@@ -194,7 +215,7 @@ def evaluate(workdir, results, tag='cases'):
         sh3 = lambda l: [(h + off, s, k) for h, s, k in l]
         return (sh3(m0), sh3(m1), sh3(f))
 
-    outs = vlib.parallel(one, list(enumerate(shards)), workers=14)
+    outs = vlib.parallel(one, list(enumerate(texts)), workers=14)
     m0, m1, ff = [], [], []
     for o in outs:
         if o[0] == 'error':
